@@ -98,19 +98,12 @@ pub fn build(s: &Spec) -> Envelope {
         Node(sub, asserts) => {
             let mut e = build(sub);
             if matches!(**sub, Node(..)) {
-                // a node whose subject is a node can only be produced by the decoder
-                let parts: Vec<Envelope> = asserts.iter().map(build).collect();
-                let mut items = vec![e.untagged_cbor()];
-                for p in &parts { items.push(p.untagged_cbor()); }
-                // the decoder must see the elements in ascending order; the harness decides that order
-                // through the same (hooked) Digest::cmp, so it is part of the path condition
-                let mut tail: Vec<(Envelope, dcbor::CBOR)> = parts.into_iter().zip(items.drain(1..)).collect();
-                tail.sort_by(|a, b| a.0.digest().cmp(&b.0.digest()));
-                let mut arr = vec![items.remove(0)];
-                arr.extend(tail.into_iter().map(|t| t.1));
-                let cbor: dcbor::CBOR = dcbor::CBORCase::Array(arr).into();
-                use dcbor::prelude::*;
-                return Envelope::from_untagged_cbor(cbor).expect("decoder refused node-subject-node");
+                // a node whose subject is a node: reachable through the API by compressing the inner node,
+                // adding assertions to the compressed element and uncompressing the subject again
+                // (no harness-side ordering is involved: every sort is the library's)
+                let mut x = e.compress().expect("compress refused a node");
+                for a in asserts { x = x.add_assertion_envelope(build(a)).expect("spec assertion refused"); }
+                return x.uncompress_subject().expect("uncompress_subject failed");
             }
             for a in asserts { e = e.add_assertion_envelope(build(a)).expect("spec assertion refused"); }
             e
